@@ -15,5 +15,5 @@ go build ./... ; B=$?
 go test -vet=off -count=1 -run "^${TEST}\$" . >/tmp/confirm-$$.b 2>&1; C=$?
 mv zz_demo_seeded_test.go /tmp/confirm-$$.demo
 go test -vet=off -count=1 -timeout 25m ./... >/tmp/confirm-$$.c 2>&1; D=$?
-echo "{\"demo_without_patch_exit\":$A,\"apply_exit\":$AP,\"build_exit\":$B,\"demo_with_patch_exit\":$C,\"full_suite_with_patch_exit\":$D,\"suite_tail\":\"$(tail -3 /tmp/confirm-$$.c | tr '\n\"' ' _' | cut -c1-200)\"}"
+echo "{\"demo_without_patch_exit\":$A,\"apply_exit\":$AP,\"build_exit\":$B,\"demo_with_patch_exit\":$C,\"full_suite_with_patch_exit\":$D,\"suite_tail\":\"$(tail -3 /tmp/confirm-$$.c | tr '\n\t\"' '  _' | cut -c1-200)\"}"
 cd /; git -C /repo worktree remove --force "$WT"; rm -f /tmp/confirm-$$.*
